@@ -185,7 +185,7 @@ def run_real(case, bindir, timeout=8):
 # ---------------------------------------------------------------- neighbours
 NB_KINDS = ["py", "pkg", "nsdir", "pyc", "pkgpyc", "cacheonly", "upper", "pyw", "near", "pylink", "pydangling", "pydir",
             "so", "soabi"]
-NB_QUICK = ["py", "pkg", "nsdir", "pyc", "pylink", "pydangling", "so"]
+NB_QUICK = ["py", "pkg", "nsdir", "pyc", "pkgpyc", "pylink", "pydangling", "so"]
 
 
 def nb_ops(place, m, kind, role):
@@ -392,7 +392,7 @@ def gen_modules(tier, safe_modules, transitive):
     """direct shadows of every safe module in every import form; transitive ones by discovery"""
     cases = []
     mods = sorted(safe_modules)
-    kinds_direct = ["py", "pkg", "pyc", "nsdir"] if tier == "quick" else NB_KINDS
+    kinds_direct = ["py", "pkg", "pyc", "pkgpyc", "nsdir"] if tier == "quick" else NB_KINDS
     for i, m in enumerate(mods):
         root = m.split(".")[0]
         for fi, form in enumerate(FORMS if tier != "quick" else [FORMS[i % len(FORMS)], FORMS[(i + 2) % len(FORMS)]]):
@@ -405,7 +405,7 @@ def gen_modules(tier, safe_modules, transitive):
                 ops = [("d", "w"), ("d", "home"), ("f", "w/x.py", src)] + nb_ops("w", root, kind, role)
                 cases.append(Case("modules", {"module": m, "form": form, "nb": kind, "rel": "direct"}, ops, "python3 x.py", "w", ["python3", "x.py"]))
         deps = transitive.get(m, [])
-        kinds_t = ["py", "pkg", "pyc", "so"] if tier == "quick" else ["py", "pkg", "pyc", "pkgpyc", "nsdir", "pylink", "so", "soabi"]
+        kinds_t = ["py", "pkg", "pyc", "pkgpyc", "so"] if tier == "quick" else ["py", "pkg", "pyc", "pkgpyc", "nsdir", "pylink", "so", "soabi"]
         pick = deps if tier != "quick" else [deps[(i + j * 3) % len(deps)] for j in range(min(3, len(deps)))]
         # loaded modules the repaired test cannot name: not identifiers, or not in sys.stdlib_module_names - always planted
         import sys as _sys
